@@ -1,5 +1,6 @@
 import WM.Proto
 import WM.Spec.Columns
+import WM.Model.ColumnsField
 namespace WM.Drv.C08
 open WM.Proto WM.Columns
 
@@ -17,7 +18,17 @@ open WM.Proto WM.Columns
                                                      every lookup agrees with `specStored`
 `segs DEFAULT ((HASCOL N ((d v)*) (live*))*)`     → `(multi-rows) (merged-rows) (model 0|1)`: `multiGet` over the
                                                      segments, then the `write_per_doc` copy of all segments
-                                                     into one (`mergeColumnAdds`), both compared with Layer S. -/
+                                                     into one (`mergeColumnAdds`), both compared with Layer S.
+Field level (`WM/Model/ColumnsField.lean`; rows are what `TranslatingColumnReader(reader, from_column_value)` shows):
+`utf8 (cp*)`                                       → `ok HEX` | `err NAME`            (`utf8encode`)
+`utf8dec HEX`                                      → `ok (cp*)` | `err NAME`          (`utf8decode`, strict)
+`fint BITS SIGNED DEFAULT|- DOCCOUNT ((d int)*)`   → `ok FILE (int|!Err*)` | `err NAME`
+`ffloat SIGNED DFLT DOCCOUNT ((d pattern)*)`       → `ok FILE (pattern|!Err*)` | `err NAME`
+`fdt DOCCOUNT ((d (days secs us))*)`               → `ok FILE ((days secs us)|!Err*)` | `err NAME`
+`ftext DOCCOUNT ((d (cp*))*)`                      → `ok FILE ((cp*)|!Err*)` | `err NAME`
+Iteration: `variter ALLOW CUTOFF DOCCOUNT adds` → `(row*)` (`list(reader)`);
+`numiter CODE DEFAULT DOCCOUNT adds` → `(iter*) (sort_key*) (sort_key after set_reverse*)`;
+`segs` also prints `multiIter` (third list). -/
 
 def parseAdds {α} (f : SExp → Option α) : SExp → Option (List (Nat × α))
   | .list xs => xs.mapM fun
@@ -127,9 +138,104 @@ def doSegs (db : String) (segs : List SegIn) : String :=
   | .error e => s!"{showList id multi} merge-err {e.name}"
   | .ok madds =>
     let merged := rowsOf db madds nlive
-    s!"{showList id multi} {showList id merged} (model {showBool (multi == specMulti && merged == specMerged)})"
+    let iter := multiIter db cols
+    s!"{showList id multi} {showList id merged} {showList id iter} (model {showBool (multi == specMulti && merged == specMerged && iter == specMulti)})"
+
+def showFRows {α} (f : α → String) (rs : List (Except FErr α)) : String :=
+  showList (fun r => match r with | .ok v => f v | .error e => "!" ++ e.name) rs
+
+def doFint (bits : Nat) (signed : Bool) (default : Option Int) (doccount : Nat) (adds : List (Nat × Int)) : String :=
+  match intFieldWrite bits signed default adds with
+  | .error e => s!"err {e.name}"
+  | .ok file =>
+    s!"ok {showHex file} {showFRows toString ((List.range doccount).map (intFieldRead bits signed default file))}"
+
+def doFfloat (signed : Bool) (dflt : Nat) (doccount : Nat) (adds : List (Nat × Nat)) : String :=
+  match floatFieldWrite signed dflt adds with
+  | .error e => s!"err {e.name}"
+  | .ok file =>
+    s!"ok {showHex file} {showFRows toString ((List.range doccount).map (floatFieldRead signed dflt file))}"
+
+def td? : SExp → Option WM.Numeric.TD
+  | .list [a, b, c] => do
+    let a ← a.int?
+    let b ← b.int?
+    let c ← c.int?
+    pure ⟨a, b, c⟩
+  | _ => none
+
+def showTD (t : WM.Numeric.TD) : String := s!"({t.days} {t.seconds} {t.micros})"
+
+def doFdt (doccount : Nat) (adds : List (Nat × WM.Numeric.TD)) : String :=
+  match datetimeFieldWrite adds with
+  | .error e => s!"err {e.name}"
+  | .ok file => s!"ok {showHex file} {showFRows showTD ((List.range doccount).map (datetimeFieldRead file))}"
+
+def doFtext (doccount : Nat) (adds : List (Nat × List Nat)) : String :=
+  match textFieldAdds adds with
+  | .error e => s!"err {e.name}"
+  | .ok cadds =>
+    match varWrite true 32768 cadds doccount with
+    | .error e => showErr e
+    | .ok file =>
+      s!"ok {showHex file} {showFRows showNatList ((List.range doccount).map (textFieldRead file doccount))}"
+
+def doVarIter (allow : Bool) (cutoff doccount : Nat) (adds : List (Nat × Bytes)) : String :=
+  match varWrite allow cutoff adds doccount with
+  | .error e => showErr e
+  | .ok file => match varIter file doccount with
+    | .error e => "!" ++ e.name
+    | .ok rows => showList showHex rows
+
+def doNumIter (c : NumCode) (default : Int) (doccount : Nat) (adds : List (Nat × Int)) : String :=
+  match numWrite c default {} adds with
+  | .error e => showErr e
+  | .ok file =>
+    let sh := fun (r : Except Err Int) => match r with
+      | .ok v => toString v
+      | .error e => "!" ++ e.name
+    let it := fixIter c.size (.ok default) (numGet c default file) file doccount
+    let ks := (List.range doccount).map (numSortKey c default false file)
+    let rs := (List.range doccount).map (numSortKey c default true file)
+    s!"{showList sh it} {showList sh ks} {showList sh rs}"
 
 def handle : List SExp → String
+  | [.atom "variter", allow, cutoff, doccount, adds] =>
+    match allow.bool?, cutoff.nat?, doccount.nat?, parseAdds hex? adds with
+    | some a, some c, some n, some xs => doVarIter a c n xs
+    | _, _, _, _ => "bad-op"
+  | [.atom "numiter", code, default, doccount, adds] =>
+    match parseNumCode code, default.int?, doccount.nat?, parseAdds SExp.int? adds with
+    | some c, some d, some n, some xs => doNumIter c d n xs
+    | _, _, _, _ => "bad-op"
+  | [.atom "utf8", cps] =>
+    match cps.natList? with
+    | some cs => match utf8Encode cs with
+      | .ok bs => s!"ok {showHex bs}"
+      | .error e => s!"err {e.name}"
+    | none => "bad-op"
+  | [.atom "utf8dec", bs] =>
+    match hex? bs with
+    | some bs => match utf8Decode bs with
+      | .ok cs => s!"ok {showNatList cs}"
+      | .error e => s!"err {e.name}"
+    | none => "bad-op"
+  | [.atom "fint", bits, signed, default, doccount, adds] =>
+    match bits.nat?, signed.bool?, SExp.opt? SExp.int? default, doccount.nat?, parseAdds SExp.int? adds with
+    | some b, some sg, some df, some n, some xs => doFint b sg df n xs
+    | _, _, _, _, _ => "bad-op"
+  | [.atom "ffloat", signed, dflt, doccount, adds] =>
+    match signed.bool?, dflt.nat?, doccount.nat?, parseAdds SExp.nat? adds with
+    | some sg, some df, some n, some xs => doFfloat sg df n xs
+    | _, _, _, _ => "bad-op"
+  | [.atom "fdt", doccount, adds] =>
+    match doccount.nat?, parseAdds td? adds with
+    | some n, some xs => doFdt n xs
+    | _, _ => "bad-op"
+  | [.atom "ftext", doccount, adds] =>
+    match doccount.nat?, parseAdds SExp.natList? adds with
+    | some n, some xs => doFtext n xs
+    | _, _ => "bad-op"
   | [.atom "sdict", .list fs] =>
     match fs.mapM parseField with
     | some fs => doSdict fs
